@@ -59,9 +59,10 @@ CATALOGUE = [
     {"op": "statistics_prop"},                                             # the cached property of the handle
     {"op": "slice_statistics", "i": 1, "j": 3},                           # ... and of a handle derived from it
     {"op": "plain_read"},                                                  # the categorical column read as plain values
+    {"op": "sorted_filtered", "cond": ["x", ">", 5]},                      # derived list, narrowed by a filter
 ]
 QUICK_PAIRS = [(0, 3), (3, 0), (2, 3), (3, 2), (7, 3), (3, 7), (8, 3), (10, 3), (11, 12), (12, 11), (14, 13), (13, 12), (15, 16), (16, 15),
-               (0, 10), (10, 1), (17, 10), (10, 17)]   # reads of one handle with different `categories=` / `columns=` selections
+               (0, 10), (10, 1), (17, 10), (10, 17), (18, 15), (15, 18)]   # reads of one handle with different `categories=` / `columns=` selections
 SYM_DELTAS = [0, 1, 2, 3, 5]
 CHUNK = 150
 MAX_STEPS = 6000
@@ -115,6 +116,9 @@ def run_op(op, pf):
         return pf.count(filters=[tuple(op["cond"])])
     if k == "cat_read":
         return pf.to_pandas(columns=["c", "x"], categories=["c"])
+    if k == "sorted_filtered":
+        from fastparquet import api
+        return api.sorted_partitioned_columns(pf, filters=[tuple(op["cond"])])
     if k == "plain_read":
         return pf.to_pandas(columns=["c", "x"], categories=[])
     raise ValueError(k)
